@@ -136,7 +136,7 @@ def r1b(ctx):
     f = repo.func("file_source", "c_file_source")
     loop = _driver_loop(f)
     ok = u(loop.iter) == "enumerate(fp, start=1)" and isinstance(loop.target, ast.Tuple) and len(loop.target.elts) == 2
-    ctx.check(ok, "file_source:c_file_source:enumerates-from-1", "physical lines must be numbered from 1 in file order", f.loc(loop))
+    ctx.soft(ok, "file_source:c_file_source:enumerates-from-1", "physical lines must be numbered from 1 in file order", f.loc(loop))
     num, line = [u(e) for e in loop.target.elts]
     paths = Evaluator(DriverHooks()).paths(f.node, body=loop.body, params={num: Sym(num), line: Sym(line)})
     ctx.note(f"{f.key}: {len(paths)} paths through the per-line loop body")
@@ -290,17 +290,17 @@ def r3(ctx):
     f = li.find_method("physical_update")
     t = u(f.node)
     ok = "self.category = self.current_logical_line.category()" in t and "self.flushed_line = self.current_logical_line.flush()" in t and t.index("self.category =") < t.index("self.flushed_line =")
-    ctx.check(ok, "file_source:line_info.physical_update", "category must be taken before the buffer is flushed", f.loc())
+    ctx.soft(ok, "file_source:line_info.physical_update", "category must be taken before the buffer is flushed", f.loc())
     lg = repo.cls("file_parser", "LineGroup")
     f = lg.find_method("add_line")
     t = u(f.node)
     ok = f"self.line_count += {f.params[2]}" in t and f"self.lines.extend({f.params[4]})" in t
-    ctx.check(ok, "file_parser:LineGroup.add_line", "must add the sloc count and extend the line list", f.loc())
+    ctx.soft(ok, "file_parser:LineGroup.add_line", "must add the sloc count and extend the line list", f.loc())
     f = lg.find_method("merge")
     g = f.params[1]
     t = u(f.node)
     ok = f"self.line_count += {g}.line_count" in t and f"self.lines.extend({g}.lines)" in t and f"{g}.reset()" in t
-    ctx.check(ok, "file_parser:LineGroup.merge", "must add the other group's count and lines, then reset it", f.loc())
+    ctx.soft(ok, "file_parser:LineGroup.merge", "must add the other group's count and lines, then reset it", f.loc())
     f = lg.find_method("reset")
     p = ev.paths(f.node)
     st = {x[1]: vtext(x[2]) for x in p[0].effects if x[0] == "store"}
@@ -311,12 +311,12 @@ def r3(ctx):
     f = fp.find_method("insert_code_node")
     c = [x for x in f.calls() if (dotted(x.func) or "").endswith("CodeNode")]
     ok = len(c) == 1 and [u(a) for a in c[0].args[:3]] == [f"{f.params[1]}.start_line", f"{f.params[1]}.end_line", f"{f.params[1]}.line_count"] and {k.arg: u(k.value) for k in c[0].keywords}.get("lines") == f"{f.params[1]}.lines"
-    ctx.check(ok, "file_parser:FileParser.insert_code_node", "a code node must take its count and its line list from the same group", f.loc())
+    ctx.soft(ok, "file_parser:FileParser.insert_code_node", "a code node must take its count and its line list from the same group", f.loc())
     f = fp.find_method("insert_directive_node")
     t = u(f.node)
     g = f.params[1]
     ok = f"new_node.num_lines = {g}.line_count" in t and f"new_node.lines = {g}.lines" in t
-    ctx.check(ok, "file_parser:FileParser.insert_directive_node:count-and-lines", "a directive node must take its count and its line list from the same group", f.loc())
+    ctx.soft(ok, "file_parser:FileParser.insert_directive_node:count-and-lines", "a directive node must take its count and its line list from the same group", f.loc())
     ctx.floor(9)
 
 
@@ -357,11 +357,11 @@ def r4(ctx):
     t = u(hd.node)
     ok = "if not groups['code'].empty():" in t and "FileParser.insert_code_node(out_tree, groups['code'])" in t and "groups['file'].merge(groups['code'])" in t and "groups['file'].merge(groups['directive'])" in t
     order = ok and t.index("insert_code_node") < t.index("insert_directive_node")
-    ctx.check(bool(order), "file_parser:FileParser.handle_directive:flush-code-first", "pending code must become a node before the directive node is inserted; both groups are merged into the file group", hd.loc())
+    ctx.soft(bool(order), "file_parser:FileParser.handle_directive:flush-code-first", "pending code must become a node before the directive node is inserted; both groups are merged into the file group", hd.loc())
     t = u(f.node)
     ok = "if not groups['code'].empty():" in t and "self.insert_code_node(out_tree, groups['code'])" in t
-    ctx.check(ok, "file_parser:FileParser.parse_file:flush-at-eof", "pending code must become a node at end of file", f.loc())
+    ctx.soft(ok, "file_parser:FileParser.parse_file:flush-at-eof", "pending code must become a node at end of file", f.loc())
     gs = [c for c in f.calls() if callee(c) == "get_file_source"]
     ok = len(gs) == 1 and [u(a) for a in gs[0].args] == ["filename", "language"]
-    ctx.check(ok, "file_parser:FileParser.parse_file:source-by-language", "the line source must be chosen for the file and the (inherited) language", f.loc())
+    ctx.soft(ok, "file_parser:FileParser.parse_file:source-by-language", "the line source must be chosen for the file and the (inherited) language", f.loc())
     ctx.floor(6)
